@@ -495,6 +495,33 @@ def const(ctx: Any) -> List[Ob]:
     texts = [norm(s) for s in nxt]
     ok = len(nxt) == 2 and isinstance(nxt[0], ast.Assign) and isinstance(nxt[0].value, ast.BinOp) and isinstance(nxt[0].value.op, ast.Add) and {norm(nxt[0].value.left), norm(nxt[0].value.right)} == {roles['now'], roles['delay']} and isinstance(nxt[1], ast.AugAssign) and isinstance(nxt[1].op, ast.Add) and isinstance(nxt[1].value, ast.Call) and call_name(nxt[1].value) == '_get_random_delay'
     obs.append(ob(R, rq, '; '.join(texts), 'the next query time is now + delay + random jitter', ok))
+    # `at least one second apart after the second`: the round that sends a QM query sets the time of the NEXT query with the
+    # raised delay (999 ms + jitter) -- evaluated for a QM round that starts with the initial delay
+    if nxt:
+        cfg_q = cfg_of(rq.node)
+        lt_q = [n for n in cfg_q.nodes if n.kind == 'loop_test']
+        first_set = next((n for n in cfg_q.nodes if n.kind == 'stmt' and n.ast is nxt[0]), None)
+
+        def eff_d(node: Any, evl: Any) -> List[Any]:
+            if node is first_set:
+                v = evl.ev(ast.Name(id=roles['delay'], ctx=ast.Load()))
+                return [('DELAY', 'UNKNOWN' if v is fd.UNKNOWN else v)]
+            return []
+
+        if lt_q and first_set is not None:
+            atoms_q: Dict[str, Any] = {roles['first']: False, rq.params[3]: None, '._is_complete': False}
+            for t in cfg_q.nodes:
+                if t.kind == 'test' and isinstance(t.ast, ast.Compare) and {x.id for x in ast.walk(t.ast) if isinstance(x, ast.Name)} == {roles['next'], roles['now']}:
+                    try:
+                        atoms_q[norm(t.ast)] = lf.same_cmp(lf.comparison(prog, rq.module, t.ast, lambda x: {roles['next']: 'NEXT', roles['now']: 'NOW'}.get(x.id) if isinstance(x, ast.Name) else None), lf.parse_cmp('NEXT - NOW <= 0'))
+                    except lf.NotLinear:
+                        pass
+                if t.kind == 'test' and isinstance(t.ast, ast.Compare) and {x.id for x in ast.walk(t.ast) if isinstance(x, ast.Name)} == {roles['last'], roles['now']}:
+                    atoms_q[norm(t.ast)] = False
+            oc_q, und_q = fd.run_paths(prog, rq.module, cfg_q, atoms_q, eff_d, start=lt_q[0], stop=lambda n: n is lt_q[0], init_locals={roles['delay']: 200}, loop_bound=1)
+            seen_d = sorted({x[1] for t in oc_q for x in t if isinstance(x, tuple) and x[0] == 'DELAY'}, key=str)
+            good_d = bool(seen_d) and all(isinstance(v, (int, float)) and v >= k for v in seen_d)
+            obs.append(ob(R, rq, nxt[0], 'a round that asks a QM question sets the next query at least the duplicate-question interval (999 ms, plus jitter) ahead', good_d, f'delay in force when the next-query time is set in a QM round that began with the initial 200 ms: {seen_d} (the raise to {k} comes after the computation, so the query after the first QM query follows it by 220-320 ms)'))
     rd = prog.func('zeroconf._services.info.ServiceInfo._get_random_delay')
     c = [x for x in walk_local_ordered(rd.node) if isinstance(x, ast.Call) and call_name(x) == 'randint']
     obs.append(ob(R, rd, c[0] if c else 'randint', 'the jitter is drawn from the 20-120 ms interval', len(c) == 1 and isinstance(c[0].args[0], ast.Starred) and norm(c[0].args[0].value) == '_AVOID_SYNC_DELAY_RANDOM_INTERVAL' and tuple(iv) == (20, 120)))
